@@ -376,7 +376,7 @@ func (c *Ctx) c01Sibling(fo *FO) {
 				}
 			}
 			// the inserted entry is a fresh key lock with its own channel (waiters block on it, the release closes it)
-			if iv := pointee(cl.insert.Value); iv == nil || iv.Kind != pw.KAlloc || iv.Fields[actualField(klTypeOf(fo.Name), "lock")] == nil || iv.Fields[actualField(klTypeOf(fo.Name), "lock")].Kind != pw.KAlloc {
+			if iv := pointee(cl.insert.Value); iv == nil || iv.Kind != pw.KAlloc || p.FieldOf(iv, actualField(klTypeOf(fo.Name), "lock")) == nil || p.FieldOf(iv, actualField(klTypeOf(fo.Name), "lock")).Kind != pw.KAlloc {
 				d, t := c.pathDetail(fo, p, "the entry inserted into keyLocks is not a freshly built key lock with a freshly made channel")
 				r.Bad("R01.2", cons, "insert-not-fresh-entry", c.Pos(cl.insert.Pos), d, t)
 			}
